@@ -129,3 +129,87 @@ package bal_slb
 //@   loop 2 invariant[value_is_hash_minus_the_intervals_passed] key != nil ==> (rangeindex == -1 ==> value == h) && (forall m int :: 0 <= m && m < N && rangeindex >= 0 && candidates[rangeindex] == backs[m] ==> value == h - wsum(backs, m) - backs[m].weight)
 //@   loop 2 invariant[value_below_the_weight_not_yet_passed] (rangeindex == -1 ==> value < totalWeight) && (forall m int :: 0 <= m && m < N && rangeindex >= 0 && candidates[rangeindex] == backs[m] ==> value < totalWeight - wsum(backs, m) - backs[m].weight)
 //@   loop 2 invariant[not_yet_found] 0 <= value && -1 <= rangeindex && rangeindex < len(candidates)
+
+// ---- C09: BalanceRR.Update keeps what persists, releases what vanished exactly once, adds what is new ----
+
+//@ spec liveRR(b *BackendRR) bool := b != nil && b.backend != nil && b.backend.closeChan != nil && !closed(b.backend.closeChan)
+//@ spec liveList(backs BackendList) bool := (forall k int :: 0 <= k && k < len(backs) ==> liveRR(backs[k])) && (forall j int :: forall k int :: 0 <= j && j < k && k < len(backs) ==> backs[j] != backs[k] && backs[j].backend != backs[k].backend && backs[j].backend.closeChan != backs[k].backend.closeChan)
+//@ spec wfBackendConf(c *cluster_table_conf.BackendConf) bool := c != nil && c.Name != nil && c.Addr != nil && c.Port != nil && c.Weight != nil
+
+//@ func NewBackendRR
+//@   props C09
+//@   nopanic nil
+//@   modifies nothing
+//@   ensures[a_new_backend_is_fresh_and_live] result0 != nil && !allocated(result0) && result0.backend != nil && !allocated(result0.backend) && result0.backend.closeChan != nil && !allocated(result0.backend.closeChan) && !closed(result0.backend.closeChan) && result0.backend.avail && result0.backend.connNum == 0
+//@   ensures[and_exists_afterwards] allocatedNow(result0) && allocatedNow(result0.backend) && allocatedNow(result0.backend.closeChan)
+
+//@ func (*BackendRR).Init
+//@   props C09
+//@   nopanic nil
+//@   requires backRR != nil && backRR.backend != nil && wfBackendConf(conf)
+//@   modifies backRR.weight, backRR.current, backRR.weightSS.final, backRR.backend.Name, backRR.backend.Addr, backRR.backend.Port, backRR.backend.AddrInfo, backRR.backend.SubCluster
+
+//@ func (*BackendRR).UpdateWeight
+//@   props C09
+//@   nopanic nil
+//@   requires backRR != nil
+//@   modifies backRR.weight, backRR.current
+
+//@ func (*BackendRR).Release
+//@   props C09
+//@   nopanic nil,close
+//@   requires[a_backend_is_released_at_most_once] liveRR(backRR)
+//@   modifies closed(backRR.backend.closeChan)
+//@   ensures closed(backRR.backend.closeChan)
+
+//@ func (*BackendRR).MatchAddrPort
+//@   props C09
+//@   nopanic nil
+//@   requires backRR != nil && backRR.backend != nil
+//@   modifies nothing
+//@   ensures result0 == (backRR.backend.Addr == addr && backRR.backend.Port == port)
+
+//@ func confMapMake
+//@   props C09
+//@   nopanic nil,index
+//@   requires forall i int :: 0 <= i && i < len(conf) ==> wfBackendConf(conf[i])
+//@   modifies nothing
+//@   ensures[a_fresh_map_of_well_formed_entries] result0 != nil && !allocated(result0) && (forall k string :: has(result0, k) ==> wfBackendConf(result0[k]))
+//@   loop 1 invariant[entries_so_far_are_well_formed] forall k string :: has(retVal, k) ==> wfBackendConf(retVal[k])
+
+//@ func (*BalanceRR).Update
+//@   props C09
+//@   nopanic nil,index,close
+//@   requires brr != nil && liveList(brr.backends)
+//@   requires[the_listed_backends_exist] forall k int :: 0 <= k && k < len(brr.backends) ==> brr.backends[k] != nil && brr.backends[k].backend != nil && brr.backends[k].backend.closeChan != nil
+//@   requires forall i int :: 0 <= i && i < len(conf) ==> wfBackendConf(conf[i])
+//@   frame Lock pure
+//@   frame Unlock pure
+//@   modifies *
+//@   let OLD := old(brr.backends)
+//@   let N := old(len(brr.backends))
+//@   ensures[the_new_list_is_live_and_duplicate_free] liveList(brr.backends)
+//@   ensures[every_old_backend_is_kept_or_released] forall i int :: 0 <= i && i < N ==> closed(old(brr.backends[i].backend.closeChan)) || (exists j int :: 0 <= j && j < len(brr.backends) && brr.backends[j] == old(brr.backends[i]))
+//@   ensures[every_new_backend_is_an_old_one_or_fresh] forall j int :: 0 <= j && j < len(brr.backends) ==> !allocated(brr.backends[j]) || (exists i int :: 0 <= i && i < N && brr.backends[j] == old(brr.backends[i]))
+//@   ensures[existing_backends_keep_availability_and_counters] forall b *backend.BfeBackend :: allocated(b) ==> b.avail == old(b.avail) && b.connNum == old(b.connNum) && b.failNum == old(b.failNum) && b.succNum == old(b.succNum)
+//@   loop 1 invariant[cursor] 0 <= index && index <= N && brr != nil
+//@   loop 1 invariant[the_old_list_is_untouched] sameslice(brr.backends, OLD) && (forall k int :: 0 <= k && k < N ==> brr.backends[k] == old(brr.backends[k]) && brr.backends[k] != nil && brr.backends[k].backend == old(brr.backends[k].backend) && brr.backends[k].backend != nil && brr.backends[k].backend.closeChan == old(brr.backends[k].backend.closeChan))
+//@   loop 1 invariant[the_old_list_is_duplicate_free] forall j int :: forall k int :: 0 <= j && j < k && k < N ==> brr.backends[j] != brr.backends[k] && brr.backends[j].backend != brr.backends[k].backend && brr.backends[j].backend.closeChan != brr.backends[k].backend.closeChan
+//@   loop 1 invariant[unprocessed_backends_are_live] forall k int :: index <= k && k < N ==> liveRR(brr.backends[k])
+//@   loop 1 invariant[the_new_list_is_a_fresh_array] cap(backendsNew) == 0 || !allocated(backendsNew)
+//@   loop 1 invariant[kept_backends_are_processed_old_ones_and_live] forall j int :: 0 <= j && j < len(backendsNew) ==> liveRR(backendsNew[j]) && (exists i int :: 0 <= i && i < index && backendsNew[j] == old(brr.backends[i]))
+//@   loop 1 invariant[processed_backends_are_kept_or_released] forall i int :: 0 <= i && i < index ==> closed(old(brr.backends[i].backend.closeChan)) || (exists j int :: 0 <= j && j < len(backendsNew) && backendsNew[j] == old(brr.backends[i]))
+//@   loop 1 invariant[the_old_backends_existed_at_entry] forall k int :: 0 <= k && k < N ==> allocated(brr.backends[k]) && allocated(brr.backends[k].backend) && allocated(brr.backends[k].backend.closeChan)
+//@   loop 1 invariant[kept_backends_are_distinct] forall j int :: forall k int :: 0 <= j && j < k && k < len(backendsNew) ==> backendsNew[j] != backendsNew[k]
+//@   loop 1 invariant[config_entries_are_well_formed] confMap != nil && (forall k string :: has(confMap, k) ==> wfBackendConf(confMap[k]))
+//@   loop 1 invariant[counters_untouched] forall b *backend.BfeBackend :: allocated(b) ==> b.avail == old(b.avail) && b.connNum == old(b.connNum) && b.failNum == old(b.failNum) && b.succNum == old(b.succNum)
+//@   loop 2 invariant[the_old_list_is_untouched] brr != nil && sameslice(brr.backends, OLD) && (forall k int :: 0 <= k && k < N ==> brr.backends[k] == old(brr.backends[k]) && brr.backends[k] != nil && brr.backends[k].backend == old(brr.backends[k].backend) && brr.backends[k].backend != nil && brr.backends[k].backend.closeChan == old(brr.backends[k].backend.closeChan))
+//@   loop 2 invariant[the_new_list_is_a_fresh_array] cap(backendsNew) == 0 || !allocated(backendsNew)
+//@   loop 2 invariant[new_entries_are_old_ones_or_fresh_and_live] forall j int :: 0 <= j && j < len(backendsNew) ==> liveRR(backendsNew[j]) && (!allocated(backendsNew[j]) || (exists i int :: 0 <= i && i < N && backendsNew[j] == old(brr.backends[i])))
+//@   loop 2 invariant[fresh_entries_have_fresh_backends] forall j int :: 0 <= j && j < len(backendsNew) && !allocated(backendsNew[j]) ==> !allocated(backendsNew[j].backend) && !allocated(backendsNew[j].backend.closeChan)
+//@   loop 2 invariant[old_backends_are_kept_or_released] forall i int :: 0 <= i && i < N ==> closed(old(brr.backends[i].backend.closeChan)) || (exists j int :: 0 <= j && j < len(backendsNew) && backendsNew[j] == old(brr.backends[i]))
+//@   loop 2 invariant[the_old_backends_existed_at_entry] forall k int :: 0 <= k && k < N ==> allocated(brr.backends[k]) && allocated(brr.backends[k].backend) && allocated(brr.backends[k].backend.closeChan)
+//@   loop 2 invariant[new_entries_exist] forall j int :: 0 <= j && j < len(backendsNew) ==> allocatedNow(backendsNew[j]) && allocatedNow(backendsNew[j].backend) && allocatedNow(backendsNew[j].backend.closeChan)
+//@   loop 2 invariant[new_entries_are_distinct] forall j int :: forall k int :: 0 <= j && j < k && k < len(backendsNew) ==> backendsNew[j] != backendsNew[k] && backendsNew[j].backend != backendsNew[k].backend && backendsNew[j].backend.closeChan != backendsNew[k].backend.closeChan
+//@   loop 2 invariant[config_entries_are_well_formed] forall k string :: has(confMap, k) ==> wfBackendConf(confMap[k])
+//@   loop 2 invariant[counters_untouched] forall b *backend.BfeBackend :: allocated(b) ==> b.avail == old(b.avail) && b.connNum == old(b.connNum) && b.failNum == old(b.failNum) && b.succNum == old(b.succNum)
